@@ -32,6 +32,31 @@ def _clean(ctx):
     return ctx.R.builder_f('clean')
 
 
+def _clean_funcs(ctx):
+    """clean and the private builder helpers that only clean (transitively)
+    calls, except the removers themselves."""
+    R = ctx.R
+    prog = ctx.prog
+    F = _clean(ctx)
+    out = [F]
+    todo = [F]
+    while todo:
+        f = todo.pop()
+        for c in prog.calls_in(f):
+            for g in prog.resolve_call(c, f):
+                if isinstance(g, Func) and g.cls == R.builder and \
+                        not g.is_public and not g.is_ctor_call and \
+                        g not in out and g.name not in (
+                            '_try_to_remove_file', '_remove_empty_dirs',
+                            '_sanitize_filename'):
+                    callers = {cf.qualname for cf, _ in
+                               prog.callers().get(g.qualname, [])}
+                    if callers <= {x.qualname for x in out}:
+                        out.append(g)
+                        todo.append(g)
+    return out
+
+
 def r12_1(ctx, rc):
     R = ctx.R
     F = _clean(ctx)
@@ -47,15 +72,16 @@ def r12_1(ctx, rc):
     else:
         rc.ok({'mutating_primitives': sorted(
             p for k, p in prims if k in (DESTROY, CREATE))}, key=key)
-    # path arguments
+    # path arguments (in clean and in private helpers only clean uses)
     n = 0
-    for call in ctx.prog.calls_in(F):
-        for g in ctx.prog.resolve_call(call, F):
+    cfuncs = _clean_funcs(ctx)
+    for F2, call in [(f2, c) for f2 in cfuncs for c in ctx.prog.calls_in(f2)]:
+        for g in ctx.prog.resolve_call(call, F2):
             if isinstance(g, Func) and g.name in (
                     '_try_to_remove_file', '_remove_empty_dirs'):
                 n += 1
-                cn = ctx.H.node_of(F, call)[0]
-                tags = c03._origin_tags(ctx, call.args[0], F, cn)
+                cn = ctx.H.node_of(F2, call)[0]
+                tags = c03._origin_tags(ctx, call.args[0], F2, cn)
                 allowed = {'cache.created_files', 'normalised-api-path'} \
                     if g.name == '_try_to_remove_file' else \
                     {'cache.created_dirs'}
@@ -66,18 +92,18 @@ def r12_1(ctx, rc):
                                  'clean applies %s to %s' % (
                                      g.name, sorted(tags - allowed) or
                                      'an unknown path'),
-                                 ctx.prog.loc(F, call), key=key)
+                                 ctx.prog.loc(F2, call), key=key)
                 else:
                     rc.ok({'sink': key, 'origins': sorted(tags)}, key=key)
     if n < 2:
         raise AnalysisError('only %d removal sites in clean' % n)
     # the cache whose sets are used is the one read from the cache file
-    for call in ctx.prog.calls_in(F):
+    for F2, call in [(f2, c) for f2 in cfuncs for c in ctx.prog.calls_in(f2)]:
         if isinstance(call.func, ast.Attribute) and call.func.attr in (
                 'created_files', 'created_dirs'):
-            cn = ctx.H.node_of(F, call)[0]
+            cn = ctx.H.node_of(F2, call)[0]
             org = ctx.H.origins(
-                call.func.value, F, cn,
+                call.func.value, F2, cn,
                 stop=lambda n: n == R.cache + '.read_immutable')
             key = 'receiver of %s in clean' % call.func.attr
             if {o[1] for o in org if o[0] == 'call'} == {
@@ -87,7 +113,7 @@ def r12_1(ctx, rc):
             else:
                 rc.violation('clean-cache | ' + key,
                              'clean does not take its sets from the cache '
-                             'file it was given', ctx.prog.loc(F, call),
+                             'file it was given', ctx.prog.loc(F2, call),
                              key=key)
 
 
